@@ -158,6 +158,69 @@ def quant_depth(t):
     return 0
 
 
+def expand_plus(t):
+    """e+ -> e e*  (what ppci's parser and Regex API build: two copies of e)"""
+    t = strip_grp(t)
+    if t[0] == "plus":
+        e = expand_plus(t[1])
+        return ["cat", e, ["star", e]]
+    if t[0] in UN:
+        return [t[0], expand_plus(t[1])]
+    if t[0] in ("cat", "alt"):
+        return [t[0], expand_plus(t[1]), expand_plus(t[2])]
+    return t
+
+
+def may_diverge(t):
+    """Superset of the expressions on which a Brzozowski construction that only knows r|r = r
+    creates infinitely many derivatives: the expression has a star and, in the position automaton
+    of the expression as ppci builds it (e+ = e e*), two different runs on one string end in
+    positions with the same residual language (then a sum of derivatives can contain the same
+    term twice).  Star-free expressions and expressions without such runs have finitely many
+    duplicate-free sums."""
+    if not has(t, ("star", "plus")):
+        return False
+    return Glushkov(expand_plus(t)).confluent_runs()
+
+
+def nullable(t):
+    k = t[0]
+    if k in ("star", "opt", "eps"):
+        return True
+    if k in ("plus", "grp"):
+        return nullable(t[1])
+    if k == "cat":
+        return nullable(t[1]) and nullable(t[2])
+    if k == "alt":
+        return nullable(t[1]) or nullable(t[2])
+    return False
+
+
+def star_over_nullable(t):
+    k = t[0]
+    if k in ("star", "plus") and nullable(t[1]):
+        return True
+    if k in UN or k == "grp":
+        return star_over_nullable(t[1])
+    if k in ("cat", "alt"):
+        return star_over_nullable(t[1]) or star_over_nullable(t[2])
+    return False
+
+
+def surely_terminates(t):
+    """A class on which a derivative construction without any alternation normal form provably
+    stays finite: star-free expressions (finite language, empty derivatives collapse to NULL), and
+    expressions whose position automaton (with e+ read as e e*, as ppci builds it) is deterministic
+    and that have no star over a nullable body: after every input there is at most one live
+    thread, so no derivative ever contains a sum that the expression did not contain."""
+    if not has(t, ("star", "plus")):
+        return True
+    e = expand_plus(t)
+    if star_over_nullable(e):
+        return False
+    return Glushkov(e).deterministic()
+
+
 # ---- Glushkov position automaton --------------------------------------------
 
 class Glushkov:
@@ -272,6 +335,64 @@ class Glushkov:
                 if nxt not in seen:
                     seen.add(nxt)
                     todo.append(nxt)
+        return False
+
+    def deterministic(self):
+        reps = self.char_classes()
+        for p in range(self.n + 1):
+            for ch in reps:
+                if sum(1 for q in self.follow[p] if self.matches(q, ch)) > 1:
+                    return False
+        return True
+
+    def residual_blocks(self):
+        """block number per position such that equal block <=> equal residual language
+        (subset construction from every singleton, Moore refinement)"""
+        reps = self.char_classes()
+        start = [frozenset([p]) for p in range(self.n + 1)]
+        seen = set(start)
+        todo = list(start)
+        delta = {}
+        while todo:
+            cur = todo.pop()
+            for ch in reps:
+                nxt = self.step(cur, ch)
+                delta[cur, ch] = nxt
+                if nxt not in seen:
+                    seen.add(nxt)
+                    todo.append(nxt)
+        block = {S: (1 if self.accepting(S) else 0) for S in seen}
+        while True:
+            sig = {S: (block[S],) + tuple(block[delta[S, ch]] for ch in reps) for S in seen}
+            ids = {}
+            new = {S: ids.setdefault(sig[S], len(ids)) for S in seen}
+            if len(ids) == len(set(block.values())):
+                return [new[S] for S in start]
+            block = new
+
+    def confluent_runs(self):
+        """two different runs on the same string that end in positions with equal residual language"""
+        blocks = self.residual_blocks()
+        reps = self.char_classes()
+        seen = set()
+        todo = [(0, 0, False)]
+        while todo:
+            item = todo.pop()
+            if item in seen:
+                continue
+            seen.add(item)
+            p, q, split = item
+            for ch in reps:
+                for p2 in self.follow[p]:
+                    if not self.matches(p2, ch):
+                        continue
+                    for q2 in self.follow[q]:
+                        if not self.matches(q2, ch):
+                            continue
+                        s2 = split or p2 != q2
+                        if s2 and blocks[p2] == blocks[q2]:
+                            return True
+                        todo.append((p2, q2, s2))
         return False
 
     def prefix_ambiguous(self):
